@@ -137,13 +137,13 @@ def run(check, tier, seed, scratch):
     if r.invariants_violated:
         check.error('ModOrder: invariant violated %s\n%s' % (r.invariants_violated, r.out[-2000:]))
     U3 = tlc.export_universe(scratch, 'abc', ['args'], ['kwargs'], 3)
-    run_trace_leg(check, scratch, 'histories+orders', chain(hist_gen(hists, seed, 0.25 if quick else 1.0), order_gen(U3, 4000 if quick else 120000, seed + 3)), None,
+    run_trace_leg(check, scratch, 'histories+orders', chain(hist_gen(hists, seed, 0.25 if quick else 0.06), order_gen(U3, 4000 if quick else 60000, seed + 3)), None,
                   module='Trace_Hist', describe=describe, classify=classify)
     check.cov['exhaustive'] = False
     check.cov['rule'] = ('histories: %s of the %d histories of %d operations over {bind, call, retrieve on instance, retrieve on class, annotate afterwards, forget, drop+collect} x '
                          '2 instances (class and subclass) generated by TLC from ObjHist, each on 8 kinds of descriptor; orders: %d seeded (base function from the 1972-signature '
                          'universe, 2-3 of kwoargs/posoargs/autokwoargs/annotate with <=2 names), all permutations applied, admissible ones compared on every route and on the '
-                         'complete call set; distinct by (kind, history) / (base, steps)' % ('a quarter' if quick else 'all', len(hists), 4 if quick else 5, 4000 if quick else 120000))
+                         'complete call set; distinct by (kind, history) / (base, steps)' % ('a quarter' if quick else 'a seeded 6%', len(hists), 4 if quick else 5, 4000 if quick else 60000))
     check.assumptions += ['reclamation is observed through weakref + gc.collect() on CPython', 'a fresh twin = new classes from the same source, the same number of annotate re-decorations applied, the operation performed once']
 
 
